@@ -631,7 +631,7 @@ def run_check(prop, tier, gen, theorems_file, what, level_rule, extra=None):
         "the theorems are about coq/JsonModel.v; the C++ is tied by gen/Tables_json.v and by the differential run reported here (finite)",
         "the model describes /repo with the repairs %s applied (findings/*.patch)" % PATCHES,
         "character widths char, char16_t, char32_t, wchar_t on LP64 little-endian; lengths below 2^32",
-        "real numbers: kind and consumed text only (value is C09/C10/C11)",
+        "real numbers: kind and consumed text are proved (every RFC numeral, JsonDigitRfc/Big/Forms.v); the value of a real leaf is DEFINED as the bits DigitModel.string_to_number gives its text (accuracy is C09/C10/C11); that JsonModel.scan_number and DigitModel.string_to_number agree is compared on every numeral of the generated documents (C06 run), not proved; of the text RealToString emits only the alphabet is proved (JsonDigitAlpha.v), its order is a per-leaf boolean",
     ]
     return rep.finish()
 
